@@ -219,3 +219,4 @@ def run(ctx) -> None:
     merge_cases(ctx)
     provider_bank(ctx)
     sections(ctx)
+    shared.argname_scope(ctx, ('forml.setup', 'forml.provider.__init__'), floor=2)
